@@ -145,6 +145,14 @@ class SimWorld:
         self.history.add("alarm", n=n, now=self.now)
         return remaining
 
+    def itimer(self, seconds):
+        remaining = 0.0
+        if self.alarm_deadline is not None:
+            remaining = max(0.0, self.alarm_deadline - self.now)
+        self.alarm_deadline = None if seconds <= 0 else self.now + float(seconds)
+        self.history.add("alarm", n=float(seconds), now=self.now)
+        return (remaining, 0.0)
+
     def deliver_alarm_if_due(self):
         if self.alarm_deadline is not None and self.now >= self.alarm_deadline:
             self.alarm_deadline = None
@@ -158,8 +166,40 @@ class SimWorld:
                 h(14, None)
 
 
-class SimTime:
-    """Replacement for the ``time`` module inside flowpaths modules."""
+class _ModuleFallback(type):
+    """A seam offers the whole interface of the module it replaces: what the simulator does not own is the real thing."""
+
+    def __getattr__(cls, name):
+        return getattr(cls._real, name)
+
+
+import signal as _real_signal
+import time as _real_time
+
+
+class SimTime(metaclass=_ModuleFallback):
+    """Replacement for the ``time`` module inside flowpaths modules: every clock reads the virtual clock."""
+    _real = _real_time
+
+    @staticmethod
+    def perf_counter_ns():
+        return int(current().perf_counter() * 1e9)
+
+    @staticmethod
+    def monotonic_ns():
+        return int(current().perf_counter() * 1e9)
+
+    @staticmethod
+    def time_ns():
+        return int((1.7e9 + current().perf_counter()) * 1e9)
+
+    @staticmethod
+    def process_time():
+        return current().perf_counter()
+
+    @staticmethod
+    def thread_time():
+        return current().perf_counter()
 
     @staticmethod
     def perf_counter():
@@ -178,13 +218,16 @@ class SimTime:
         current().advance(float(d))
 
 
-class SimSignal:
+class SimSignal(metaclass=_ModuleFallback):
+    _real = _real_signal
     SIGALRM = 14
     SIG_DFL = 0
     SIG_IGN = 1
 
     @staticmethod
     def signal(signum, handler):
+        if signum != SimSignal.SIGALRM:
+            return _real_signal.signal(signum, handler)
         w = current()
         old = w.alarm_handler
         w.alarm_handler = handler
@@ -196,7 +239,14 @@ class SimSignal:
         return current().alarm(n)
 
     @staticmethod
+    def setitimer(which, seconds, interval=0.0):
+        # ITIMER_REAL delivers SIGALRM: the same virtual alarm, with sub-second resolution
+        return current().itimer(seconds)
+
+    @staticmethod
     def getsignal(signum):
+        if signum != SimSignal.SIGALRM:
+            return _real_signal.getsignal(signum)
         h = current().alarm_handler
         return h if h is not None else SimSignal.SIG_DFL
 
